@@ -230,6 +230,14 @@ theorem gen_pool_unbounded : Gen.Upstream.doh_conn_limits = [] := by decide
 
 example : (ConnPool.run ⟨none, 0⟩ [false, true, false, true]).1 = [false, true, false, true] := by decide
 
+/-- tie to the source (regenerated): EVERY function of the plain-DNS upstream code that dials
+(`DNS53.resolve`, `DNSEndpoint.Exchange`, and any helper added beside them — a TCP retry, a second
+server) passes the request context to its dial and sets a deadline on the connection before its
+first read or write: no upstream exchange can outlive the request. -/
+theorem gen_every_dial_bounded :
+    (Gen.Upstream.dns53_dialers.all fun d => d.2.1 && d.2.2) = true ∧ 2 ≤ Gen.Upstream.dns53_dialers.length := by
+  decide
+
 /-- non-vacuity: an arrival sequence with a stale answer of a previous query, a runt and then the
 answer; and one where the answer comes too late. -/
 example : dns53Loop 7 300 [⟨10, [0, 9, 1]⟩, ⟨12, [0]⟩, ⟨40, [0, 7, 1, 2]⟩] = .answer 40 [0, 7, 1, 2] := by decide
